@@ -188,7 +188,20 @@ class GroupScenario:
         if p.get("coord_move") and quiescent and ch.remaining("f") > 0 and not getattr(self, "_moved", False):
             out.append(Alt("coord-move:keep", "f", lambda: self.move_coordinator(False)))
             out.append(Alt("coord-move:lose", "f", lambda: self.move_coordinator(True)))
+        if p.get("md_refresh") and ch.remaining("x") > 0:
+            # the phase of the periodic metadata refresh timer is unconstrained: a refresh may start at any instant. Offered
+            # while a member has a JoinGroup/SyncGroup in flight (a refresh landing inside a rebalance round trip)
+            busy = {e.conn.owner for e in world.net.pending if e.kind in ("req", "resp") and e.info in ("JoinGroup", "SyncGroup", "JoinGroupR", "SyncGroupR")}
+            for i, c in self.consumers.items():
+                if f"c{i}" in busy and self.alive.get(i) and i not in self.killed:
+                    out.append(Alt(f"md-refresh:c{i}", "x", lambda i=i, c=c: self.refresh_metadata(i, c)))
         return out
+
+    def refresh_metadata(self, i, c):
+        from vf.explore import contextvars_copy
+
+        self.rec("md-refresh", i)
+        contextvars_copy(f"c{i}").run(c._client.force_metadata_update)
 
     def kill(self, i):
         self.killed.add(i)
@@ -322,12 +335,14 @@ class GroupScenario:
         co = c._coordinator
         self.stop_ctx[i] = {"t0": t0, "f_spent": world.chooser.spent["f"], "generation": getattr(co, "generation", None),
                             "member_id": getattr(co, "member_id", None), "group_state": g.state if g else None,
-                            "coordinator_up": self.cluster.up.get(self.cluster.coordinator, False) and not self.cluster.blackhole}
+                            # "its coordinator" = the node the member currently takes for the coordinator
+                            "coordinator_up": (getattr(co, "coordinator_id", None) == self.cluster.coordinator
+                                               and self.cluster.up.get(self.cluster.coordinator, False) and not self.cluster.blackhole)}
         self.rec("stop-begin", i)
         self.stopped[i] = None
         try:
             await c.stop()
-        except Exception as e:  # noqa: BLE001
+        except BaseException as e:  # noqa: BLE001 - nobody cancels this task: a CancelledError here comes out of stop() itself
             self.rec("stop-exc", i, type(e).__name__, str(e)[:80])
         self.stopped[i] = world.now() - t0
         self.alive[i] = False
@@ -377,6 +392,13 @@ class GroupScenario:
             evs.append(tuple(p["new_topic_at"]) + ("new",))
         if p.get("grow_at"):
             evs.append(tuple(p["grow_at"]) + ("grow",))
+        if p.get("mode_at"):
+            at, mode = p["mode_at"]
+            await asyncio.sleep(max(0.0, at - self.world.now()))
+            if mode[0] == "coord-move":
+                self.move_coordinator(bool(mode[1]))
+            else:
+                self.set_mode(tuple(mode))
         for at, topic, parts, kind in sorted(evs):
             await asyncio.sleep(max(0.0, at - self.world.now()))
             cl = self.cluster
